@@ -44,6 +44,7 @@ type opJ struct {
 	K string `json:"k"` // reg unreg start end flush shutdown | add collect | emit
 	P int    `json:"p,omitempty"`
 	B bool   `json:"b,omitempty"` // fresh / live
+	S bool   `json:"s,omitempty"` // fresh handle requested for the SAME scope as the one obtained before Shutdown
 }
 
 type scenario struct {
@@ -84,6 +85,7 @@ type resultJ struct {
 	Obs       []obsJ `json:"obs"`
 	Panic     string `json:"panic,omitempty"`
 	Shutdowns []int  `json:"shutdowns,omitempty"`
+	Late      int    `json:"late"` // OnStart/OnEnd calls that reached a processor after Shutdown had returned
 	XShutdowns []int `json:"xshutdowns,omitempty"`
 	StormKinds []string `json:"storm_kinds,omitempty"`
 	FreshRec  bool   `json:"fresh_rec,omitempty"`
@@ -170,6 +172,7 @@ type countProc struct {
 	id    int
 	inner sdktrace.SpanProcessor
 	rec   *recorder
+	slow  time.Duration // Shutdown dawdles this long (keeps TracerProvider.mu held by the Shutdown caller)
 }
 
 func (p *countProc) OnStart(ctx context.Context, s sdktrace.ReadWriteSpan) {
@@ -186,6 +189,9 @@ func (p *countProc) OnEnd(s sdktrace.ReadOnlySpan) {
 }
 func (p *countProc) Shutdown(ctx context.Context) error {
 	p.rec.call(p.id, "KShutdown")
+	if p.slow > 0 {
+		time.Sleep(p.slow)
+	}
 	if p.inner != nil {
 		return p.inner.Shutdown(ctx)
 	}
@@ -260,7 +266,11 @@ func childTrace(sc scenario) resultJ {
 		case "start":
 			tr := retained
 			if o.B {
-				tr = tp.Tracer(fmt.Sprintf("fresh%d", i))
+				name := fmt.Sprintf("fresh%d", i)
+				if o.S {
+					name = "retained" // the scope whose tracer was created (and cached) before
+				}
+				tr = tp.Tracer(name)
 			}
 			_, sp := tr.Start(context.Background(), "s")
 			ob.Flag = sp.IsRecording()
@@ -337,7 +347,11 @@ func childMetric(sc scenario) resultJ {
 		case "add":
 			var c metric.Int64Counter = retained
 			if o.B {
-				c, _ = mp.Meter(fmt.Sprintf("fresh%d", i)).Int64Counter("c")
+				name := fmt.Sprintf("fresh%d", i)
+				if o.S {
+					name = "retained"
+				}
+				c, _ = mp.Meter(name).Int64Counter("c")
 			}
 			_, isNoop := c.(metricnoop.Int64Counter)
 			ob.Flag = !isNoop
@@ -425,7 +439,11 @@ func childLog(sc scenario) resultJ {
 		case "emit":
 			l := retained
 			if o.B {
-				l = lp.Logger(fmt.Sprintf("fresh%d", i))
+				name := fmt.Sprintf("fresh%d", i)
+				if o.S {
+					name = "retained"
+				}
+				l = lp.Logger(name)
 			}
 			_, isNoop := l.(lognoop.Logger)
 			ob.Flag = !isNoop
@@ -456,6 +474,9 @@ func childStorm(sc scenario) resultJ {
 	for i := range procs {
 		chosen[i] = kinds[r.Intn(len(kinds))]
 		procs[i] = mkSpanProc(i, chosen[i], rec, out)
+		if i < sc.N && r.Chance(1, 2) {
+			procs[i].slow = time.Duration(r.Range(50, 800)) * time.Microsecond
+		}
 	}
 	var opts []sdktrace.TracerProviderOption
 	for i := 0; i < sc.N; i++ {
@@ -463,6 +484,7 @@ func childStorm(sc scenario) resultJ {
 	}
 	tp := sdktrace.NewTracerProvider(opts...)
 	tr := tp.Tracer("storm")
+	_, preSpan := tr.Start(context.Background(), "started-before-the-storm")
 	type act struct{ k, p int }
 	plans := make([][]act, sc.G)
 	extra := sc.N
@@ -521,6 +543,25 @@ func childStorm(sc scenario) resultJ {
 	res.XShutdowns = make([]int, total)
 	calls, xcalls := rec.take()
 	for _, c := range calls {
+		if c.K == "KShutdown" {
+			res.Shutdowns[c.ID]++
+		}
+	}
+	for _, c := range xcalls {
+		if c.K == "KXShutdown" {
+			res.XShutdowns[c.ID]++
+		}
+	}
+	// Shutdown has returned: spans from a tracer obtained before it, and the span started before the
+	// storm, must not reach any processor any more (in particular not one registered behind Shutdown's back)
+	_, late := tr.Start(context.Background(), "from-a-pre-shutdown-tracer")
+	late.End()
+	preSpan.End()
+	calls, xcalls = rec.take()
+	for _, c := range calls {
+		if c.K == "KOnStart" || c.K == "KOnEnd" {
+			res.Late++
+		}
 		if c.K == "KShutdown" {
 			res.Shutdowns[c.ID]++
 		}
@@ -932,7 +973,7 @@ func scenarioCoq(sc scenario, res *resultJ) string {
 			sk[i] = "(" + k + ")"
 		}
 	}
-	return fmt.Sprintf("CStorm [%s] %d %d [%s] %s %v %s %s", strings.Join(sk, "; "), sc.N, sc.Extra, strings.Join(sh, ";"), intsCoq(res.XShutdowns), res.FreshRec, res.FlushErr, res.ShutErr)
+	return fmt.Sprintf("CStorm [%s] %d %d [%s] %s %d %v %s %s", strings.Join(sk, "; "), sc.N, sc.Extra, strings.Join(sh, ";"), intsCoq(res.XShutdowns), res.Late, res.FreshRec, res.FlushErr, res.ShutErr)
 }
 
 // ---- generators ----
@@ -967,7 +1008,7 @@ func genTrace(r *vgen.Rand) scenario {
 		case x < 8:
 			o = opJ{K: "unreg", P: r.Intn(n)}
 		case x < 12:
-			o = opJ{K: "start", B: r.Bool()}
+			o = opJ{K: "start", B: r.Bool(), S: r.Bool()}
 			started++
 		case x < 16 && started > 0:
 			o = opJ{K: "end", P: r.Intn(started)}
@@ -976,7 +1017,7 @@ func genTrace(r *vgen.Rand) scenario {
 		case x < 19:
 			o = opJ{K: "shutdown", B: !r.Chance(1, 6)}
 		default:
-			o = opJ{K: "start", B: r.Bool()}
+			o = opJ{K: "start", B: r.Bool(), S: r.Bool()}
 			started++
 		}
 		sc.Ops = append(sc.Ops, o)
@@ -1000,7 +1041,7 @@ func genMetric(r *vgen.Rand) scenario {
 		case i == shutAt:
 			o = opJ{K: "shutdown", B: !r.Chance(1, 5)}
 		case x < 4:
-			o = opJ{K: "add", B: r.Bool()}
+			o = opJ{K: "add", B: r.Bool(), S: r.Bool()}
 		case x < 6:
 			o = opJ{K: "collect", P: r.Intn(n)}
 		case x < 9:
@@ -1028,7 +1069,7 @@ func genLog(r *vgen.Rand) scenario {
 		case i == shutAt:
 			o = opJ{K: "shutdown", B: !r.Chance(1, 5)}
 		case x < 5:
-			o = opJ{K: "emit", B: r.Bool()}
+			o = opJ{K: "emit", B: r.Bool(), S: r.Bool()}
 		case x < 8:
 			o = opJ{K: "flush", B: !r.Chance(1, 5)}
 		default:
@@ -1075,6 +1116,15 @@ func main() {
 			Ops: []opJ{{K: "add"}, {K: "flush", B: true}, {K: "shutdown", B: true}, {K: "add", B: true}, {K: "flush", B: true}, {K: "collect", P: 0}, {K: "shutdown", B: true}}},
 		scenario{Kind: "log", Kinds: []string{"LSimple XStd", "LBatch XNil", "LSimple XNil", "LBatch XStd"},
 			Ops: []opJ{{K: "emit"}, {K: "flush", B: true}, {K: "shutdown", B: true}, {K: "emit"}, {K: "emit", B: true}, {K: "flush", B: true}, {K: "shutdown", B: true}}},
+	)
+	scs = append(scs,
+		// a handle for the SAME scope requested again after Shutdown must be a no-op one
+		scenario{Kind: "trace", Kinds: []string{"PCount", "PSimple XStd"}, Members: []int{0, 1},
+			Ops: []opJ{{K: "start"}, {K: "shutdown", B: true}, {K: "start", B: true, S: true}, {K: "end", P: 1}, {K: "end", P: 0}}},
+		scenario{Kind: "metric", Kinds: []string{"RManual", "RPeriodic XStd"},
+			Ops: []opJ{{K: "add"}, {K: "shutdown", B: true}, {K: "add", B: true, S: true}, {K: "flush", B: true}}},
+		scenario{Kind: "log", Kinds: []string{"LSimple XStd", "LBatch XStd"},
+			Ops: []opJ{{K: "emit"}, {K: "shutdown", B: true}, {K: "emit", B: true, S: true}, {K: "flush", B: true}}},
 	)
 	nCorpus := len(scs)
 	for i := 0; i < o.Count(450, 6000); i++ {
